@@ -144,7 +144,7 @@ def extract_reader(ck) -> ReaderTable:
     paths = explore(ck, fn, unroll=(0, 1))
     cols = None
     cols_node = None
-    row_parser_q = None
+    row_callable = None
     for pa in paths:
         for e in pa.events:
             if e.term is None:
@@ -157,17 +157,34 @@ def extract_reader(ck) -> ReaderTable:
                         cols_node = e.node
         if pa.value is not None:
             for x in T.subterms(pa.value):
-                if x[0] == "app" and "rowParserFactory" in x[1]:
-                    row_parser_q = x[1]
+                if x[0] == "mcall" and x[2] == "apply" and len(x[3]) >= 1:
+                    row_callable = x[3][0]
     if cols is None or any(c is None for c in cols):
         raise AnalysisError(f"{fn.where}: literal column list requested from readFile not found")
-    if row_parser_q is None:
+    row_parser = None
+    if row_callable is not None:
+        c = row_callable
+        if c[0] == "app":
+            # a factory method returning the (nested) row-parsing function
+            factory = p.get_function(c[1])
+            inner = [k for k in factory.children if not k.is_lambda]
+            if len(inner) == 1:
+                row_parser = inner[0]
+            else:
+                raise AnalysisError(f"{factory.where}: expected one nested row-parsing function")
+        elif c[0] == "fn":
+            row_parser = p.get_function(c[1])
+        elif c[0] == "attr":
+            # a bound method of the reader
+            name = c[2]
+            cls = fn.enclosing_class
+            for cand in (name, name.replace(f"_{cls.name}__", "__") if cls else name):
+                m = cls.methods.get(cand) if cls else None
+                if m is not None:
+                    row_parser = m
+                    break
+    if row_parser is None:
         raise AnalysisError(f"{fn.where}: row parser (callable applied to each row) not found")
-    factory = p.get_function(row_parser_q)
-    inner = [c for c in factory.children if not c.is_lambda]
-    if len(inner) != 1:
-        raise AnalysisError(f"{factory.where}: expected one nested row-parsing function")
-    row_parser = inner[0]
     rps = [pa for pa in explore(ck, row_parser) if pa.outcome == "return"]
     if len(rps) != 1:
         raise AnalysisError(f"{row_parser.where}: row parser expected to have a single return")
